@@ -12,6 +12,9 @@ A case is a JSON-able dict:
         steps: [{"acts": [action], "res": ["Y", hex] | ["R", exn]}],
         has_close, close_exn (None | exn)
   action: ["S", status, [[k, v], ...], exc|None] | ["W", hex] | ["R", exn]
+          | ["T", status, [[k, v], ...], exc|None]   try: start_response(...) except BaseException: pass
+            (the application, or a wrapper around it, swallows the refusal and carries on;
+             model: ATryStart)
   a str object is a Python str; a non-str object is {"nonstr": i}
 """
 import io
@@ -41,9 +44,9 @@ def ser_obj(x):
 
 
 def ser_action(a):
-    if a[0] == "S":
+    if a[0] in ("S", "T"):
         status, headers, exc = a[1], a[2], a[3]
-        out = ["S", ser_obj(status), str(len(headers))]
+        out = [a[0], ser_obj(status), str(len(headers))]
         for k, v in headers:
             out += [ser_obj(k), ser_obj(v)]
         out.append(exc or "none")
@@ -315,6 +318,7 @@ class Recorder:
         self.tasks = []
         self.nws_at_task = []
         self.mirror = []
+        self.swallowed = []     # (exception name, writes so far) of every refusal the script swallowed
 
 
 def run_actions_real(acts, start_response, rec):
@@ -334,6 +338,24 @@ def run_actions_real(acts, start_response, rec):
             # the application goes on to mutate the list it passed (no effect: extend copied it)
             for k, v in opt.get("outer", []):
                 hs.append((k, v))
+        elif a[0] == "T":
+            # the application (or an error-handling wrapper) swallows whatever start_response raises
+            status, headers, exc = a[1], a[2], a[3]
+            hs = [(real_obj(k), real_obj(v)) for k, v in headers]
+            try:
+                if exc is None:
+                    w = start_response(real_obj(status), hs)
+                else:
+                    e = make_exc(exc, log=False)
+                    w = start_response(real_obj(status), hs, (type(e), e, None))
+            except BaseException as e:
+                # not an application failure: take the entry the sr() wrapper logged back
+                if RAISE_LOG:
+                    rec.swallowed.append(RAISE_LOG.pop())
+                else:
+                    rec.swallowed.append((exc_name(e), -1))
+            else:
+                rec.write = w
         elif a[0] == "M":
             _, i, isv, v = a
             if i < len(rec.mirror) and isinstance(rec.mirror[i], list):
@@ -546,6 +568,7 @@ def run_real(case):
         extra = {
             "worker_died": worker_died,
             "raised": raise_log,
+            "swallowed": list(rec.swallowed),
             "got_iterable": getattr(rec, "got_iterable", False),
             "requests_left": len(ch.requests),
             "request_closed": request.closed,
@@ -632,6 +655,11 @@ def W(b):
     return ["W", hexb(b)]
 
 
+def TRY(status="200 OK", headers=(), exc=None):
+    """start_response inside try/except BaseException: the refusal is swallowed"""
+    return ["T", status, [list(h) for h in headers], exc]
+
+
 VERSIONS = ["1.0", "1.1", "2.0"]
 CONNS = [None, "close", "keep-alive", "Keep-Alive", "CLOSE", "upgrade"]
 STATUSES = ["200 OK", "204 No Content", "304 Not Modified", "100 Continue"]
@@ -713,6 +741,13 @@ def start_variants(status, headers, opt=None):
         ("in first iteration", [], [Y(b"body", [S(status, headers, **opt)])]),
         ("exc_info after output", [good, W(b"out")], [Y(b"more", [S(status, headers, "XE", **opt)])]),
         ("second call without exc_info", [good, S(status, headers, **opt)], [Y(b"body")]),
+        # the application (or a wrapper) swallows the refusal and produces a response anyway
+        ("swallowed initial call, body returned", [TRY(status, headers)], [Y(b"body")]),
+        ("swallowed exc_info re-call, body returned", [good, TRY(status, headers, "XE")], [Y(b"body")]),
+        ("swallowed exc_info re-call, then write()", [good, TRY(status, headers, "XE"), W(b"data")], []),
+        ("swallowed in first iteration", [], [Y(b"body", [TRY(status, headers)])]),
+        ("swallowed initial call, then an accepted exc_info call",
+         [TRY(status, headers), S("201 Created", [("X-Second", "2")], "XE")], [Y(b"body")]),
     ]
 
 
@@ -793,7 +828,8 @@ def hostile_cases(rng, tier):
             for h in HOSTILE + ["\r\n ", " \r\n", "\n\r", "_", "+", "-", "\u2028", "\u3000", "\u0660"]:
                 for val in placements(base, h):
                     hs = [("X-Before", "b"), (name, val), ("X-After", "a")]
-                    for vtag, call, steps in start_variants("200 OK", hs)[:2]:
+                    sv = start_variants("200 OK", hs)
+                    for vtag, call, steps in sv[:2] + [sv[5], sv[7]]:     # propagating and swallowed refusals
                         version, conn = req_mix[k % len(req_mix)]
                         k += 1
                         out.append((("special name x hostile value", nm, repr(h), vtag),
@@ -824,6 +860,197 @@ def hostile_cases(rng, tier):
     return out
 
 
+# ---------------------------------------------------------------------------
+# swallowed refusals: every raise site of start_response x every way of producing output
+
+
+def refused_calls():
+    """(site, status, headers, needs) -- one start_response call per raise site; needs is
+    None, "complete" (a call was made before) or "output" (the head has been written)"""
+    ns = {"nonstr": 0}
+    evil = "200 OK\r\nSet-Cookie: session=attacker\r\nX-Injected: yes"
+    ok = ("X-Ok", "1")
+    out = [
+        ("R1 second call without exc_info", "299 Second", [("X-Second", "2")], "complete"),
+        ("R1 second call without exc_info, offending strings", evil, [("X-Evil\r\n", "v\n")], "complete"),
+        ("R2 exc_info after output", "500 Late", [("X-Late", "1")], "output"),
+        ("R2 exc_info after output, offending strings", evil, [("X-Evil\r\n", "v\n")], "output"),
+        ("R3 status not a str", ns, [ok], None),
+        ("R4 CRLF in status", evil, [ok], None),
+        ("R4 LF in status", "200 OK\nX-Injected: yes", [ok], None),
+        ("R4 CR in status", "200\rOK", [], None),
+        ("R4 CRLF at the end of status", "404 Not Found\r\n", [("Content-Length", "3")], None),
+    ]
+    bad_pairs = [
+        ("R5 name not a str", (ns, "v")),
+        ("R6 value not a str", ("X-V", ns)),
+        ("R7 CRLF in value", ("X-V", "v\r\nX-Injected: yes")),
+        ("R7 LF in value", ("Set-Cookie", "a=1\nb")),
+        ("R8 CRLF in name", ("X-N\r\nX-Injected: yes", "v")),
+        ("R8 CR in name", ("X-N\r", "v")),
+        ("R9 Content-Length not an int", ("Content-Length", "abc")),
+        ("R9 Content-Length empty", ("content-length", "")),
+        ("R10 hop-by-hop", ("Connection", "close")),
+        ("R10 hop-by-hop transfer-encoding", ("Transfer-Encoding", "chunked")),
+        ("R7 before R10 (value checked first)", ("Upgrade", "h2c\r\n")),
+        # refused values that int() would accept (it strips whitespace, CR and LF included; it takes an int):
+        # content_length must not be assigned from them
+        ("R7 CRLF after a Content-Length value", ("Content-Length", "3\r\n")),
+        ("R7 LF before a Content-Length value", ("content-length", "\n2")),
+        ("R7 CR inside the padding of a Content-Length value", ("CONTENT-LENGTH", " 1 \r ")),
+        ("R6 Content-Length value is an int object", ("Content-Length", {"nonstr": 0})),
+        ("R8 LF after the name Content-Length", ("Content-Length\n", "3")),
+    ]
+    cl = ("Content-Length", "3")
+    for site, bad in bad_pairs:
+        for status in ("200 OK", "404 Not Found", "204 No Content"):
+            # position of the refused pair; a Content-Length pair BEFORE it is int()ed and stays
+            out.append((site + ", only pair", status, [bad], None))
+            out.append((site + ", after a plain pair", status, [ok, bad, ("X-After", "z")], None))
+            out.append((site + ", after Content-Length (stale content_length)", status, [ok, cl, bad], None))
+            out.append((site + ", before Content-Length", status, [bad, cl], None))
+    out.append(("R9 second Content-Length not an int", "200 OK", [("Content-Length", "7"), ("CONTENT-LENGTH", "x")], None))
+    out.append(("R9 Content-Length larger than the body, then refused", "200 OK", [("Content-Length", "40"), ("Te", "x")], None))
+    out.append(("R9 Content-Length 0, then refused", "200 OK", [("Content-Length", "0"), ("X\n", "x")], None))
+    out.append(("R9 negative Content-Length, then refused", "200 OK", [("Content-Length", "-1"), ("X\n", "x")], None))
+    return out
+
+
+def swallow_contexts(status, headers, needs):
+    """(tag, call, kind, steps, extra): ways of reaching the refused call and of producing
+    output afterwards.  write() is only ever called when a callable has been obtained."""
+    good = S("200 OK", [("X-First", "1")])
+    good_cl = S("200 OK", [("X-First", "1"), ("Content-Length", "5")])
+    gen = ("gen",)
+    out = []
+    if needs is None:
+        # (a) the FIRST call is refused and swallowed
+        t = TRY(status, headers)
+        out += [
+            ("first call; list of one chunk", [t], ("sized", 1), [Y(b"hello")], {"has_close": False}),
+            ("first call; generator", [t], gen, [Y(b"ab"), Y(b""), Y(b"cde")], {}),
+            ("first call; empty generator", [t], gen, [], {}),
+            ("first call; seekable file", [t], ("file", True), [Y(b"abcd"), Y(b"ef")], {"block_size": 4}),
+            ("first call; non-seekable file", [t], ("file", False), [Y(b"abcd"), Y(b"ef")], {"block_size": 4}),
+            ("first call; then an accepted exc_info call", [t, S("201 Created", [("X-Second", "2")], "XE")], gen, [Y(b"body")], {}),
+            ("first call; then an accepted exc_info call and write()",
+             [t, S("201 Created", [("X-Second", "2")], "XE"), W(b"data")], gen, [Y(b"more")], {}),
+            ("first call; then a second call without exc_info (propagates)", [t, S("201 Created", [("X-Second", "2")])], gen, [Y(b"body")], {}),
+            ("first call; then a swallowed second call without exc_info", [t, TRY("201 Created", [("X-Second", "2")])], gen, [Y(b"body")], {}),
+            ("first call; then a swallowed refused exc_info call", [t, TRY("500 Oops\r\nX-Injected: 2", [("X-Second", "2")], "XE")], gen, [Y(b"body")], {}),
+            ("first call twice", [t, TRY(status, headers, "XE")], ("sized", 1), [Y(b"hello")], {"has_close": False}),
+            ("in the first iteration", [], gen, [Y(b"body", [t]), Y(b"more")], {}),
+            ("in the first iteration, list of one chunk", [], ("sized", 1), [Y(b"body", [t])], {"as_list": False}),
+            ("in the second iteration after a late accepted call", [], gen, [Y(b"", [good]), Y(b"body", [TRY(status, headers, "XE")])], {}),
+        ]
+        # (b) an accepted call first; the refused call is an exc_info re-call before output
+        te = TRY(status, headers, "XE")
+        out += [
+            ("exc_info re-call; list of one chunk", [good, te], ("sized", 1), [Y(b"sorry")], {"has_close": False}),
+            ("exc_info re-call after Content-Length; generator", [good_cl, te], gen, [Y(b"so"), Y(b"rry")], {}),
+            ("exc_info re-call after Content-Length; seekable file", [good_cl, te], ("file", True), [Y(b"abcd"), Y(b"ef")], {"block_size": 4}),
+            ("exc_info re-call; write() from the first call; empty iterable", [good, te, W(b"data")], gen, [], {}),
+            ("exc_info re-call; write() from the first call; then chunks", [good_cl, te, W(b"da"), W(b"")], gen, [Y(b"ta!"), Y(b"x")], {}),
+            ("exc_info re-call (BaseException class); write()", [good, TRY(status, headers, "XB"), W(b"data")], gen, [], {}),
+            ("exc_info re-call; then an accepted exc_info call", [good, te, S("503 Busy", [("Retry-After", "1")], "XE")], gen, [Y(b"body")], {}),
+            ("exc_info re-call; then a propagating refused exc_info call", [good, te, S("500 X\r\n", [], "XE")], gen, [Y(b"body")], {}),
+            ("exc_info re-call; then the application raises", [good, te, ["R", "XE"]], gen, [Y(b"body")], {}),
+            ("exc_info re-call; the iterable raises after a chunk", [good, te], gen, [Y(b"ab"), RZ("XE")], {}),
+        ]
+    elif needs == "complete":
+        t = TRY(status, headers)
+        out += [
+            ("second call without exc_info; list of one chunk", [good, t], ("sized", 1), [Y(b"hello")], {"has_close": False}),
+            ("second call without exc_info; write()", [good_cl, t, W(b"he")], gen, [Y(b"llo")], {}),
+            ("second call without exc_info in the first iteration", [good], gen, [Y(b"body", [t])], {}),
+            ("second call without exc_info after a swallowed first call", [TRY("200 OK\n", []), t], gen, [Y(b"body")], {}),
+        ]
+    else:
+        for exc in ("XE", "XO", "XB"):
+            t = TRY(status, headers, exc)
+            out += [
+                ("exc_info after output (%s); write() again" % exc, [good, W(b"out"), t, W(b"more")], gen, [Y(b"x")], {}),
+                ("exc_info after output (%s) in an iteration" % exc, [good], gen, [Y(b"ab"), Y(b"cd", [t]), Y(b"ef")], {}),
+                ("exc_info after output (%s); Content-Length" % exc, [good_cl, W(b"he"), t], gen, [Y(b"llo")], {}),
+            ]
+    return out
+
+
+def swallow_cases(rng, tier):
+    out = []
+    req_mix = [("1.1", None, False), ("1.0", "keep-alive", False), ("1.1", "close", False), ("1.0", None, False),
+               ("1.1", None, True)]
+    k = 0
+    for site, status, headers, needs in refused_calls():
+        for tag, call, kind, steps, extra in swallow_contexts(status, headers, needs):
+            mixes = req_mix if tier != "quick" else [req_mix[k % len(req_mix)]]
+            k += 1
+            for version, conn, head in mixes:
+                out.append((("swallow", site, tag, version, str(conn), head),
+                            mk_case(call, kind=kind, steps=steps, version=version, conn=conn, head=head, **extra)))
+    return out
+
+
+def _make_offending(rng, a):
+    """turn one start_response action into one that some raise site refuses"""
+    status, headers = a[1], [list(h) for h in a[2]]
+    r = rng.randrange(8)
+    if r == 0:
+        status = {"nonstr": rng.randrange(5)}
+    elif r == 1:
+        p = rng.randint(0, len(status)) if isinstance(status, str) else 0
+        status = (status if isinstance(status, str) else "200 OK")
+        status = status[:p] + rng.choice(["\r\n", "\n", "\r", "\r\nX-Injected: yes"]) + status[p:]
+    else:
+        bad = rng.choice([
+            [{"nonstr": 1}, "v"], ["X-V", {"nonstr": 2}], ["X-V", "v\r\nX-Injected: yes"], ["X-N\nX-Injected: yes", "v"],
+            ["Content-Length", "x1"], ["Connection", "close"], ["transfer-encoding", "chunked"], ["Keep-Alive", "1"],
+        ])
+        headers.insert(rng.randint(0, len(headers)), bad)
+    return [a[0], status, headers, a[3]]
+
+
+def random_swallow_script(rng):
+    """a random script (random_script) in which every start_response call but the first
+    may be made inside try/except, about half of those with an offending argument"""
+    import copy
+    case = copy.deepcopy(random_script(rng))
+    app = case["app"]
+    seen_first = [False]
+
+    def tr(acts):
+        out = []
+        for a in acts:
+            if a[0] == "S":
+                if not seen_first[0]:
+                    seen_first[0] = True
+                elif rng.random() < 0.7:
+                    a = ["T", a[1], a[2], a[3]]
+                    if rng.random() < 0.55:
+                        a = _make_offending(rng, a)
+            out.append(a)
+            # an error handler that re-calls start_response(exc_info) and swallows the refusal
+            if a[0] in ("S", "T") and seen_first[0] and rng.random() < 0.25:
+                t = ["T", rng.choice(["500 Oops", "404 Not Found", "204 No Content"]),
+                     [["X-Err", "1"]] + ([["Content-Length", str(rng.choice([0, 2, 5, 40]))]] if rng.random() < 0.4 else []),
+                     rng.choice(FAULT_CLASSES + [None])]
+                if rng.random() < 0.6:
+                    t = _make_offending(rng, t)
+                out.append(t)
+        return out
+
+    app["call"] = tr(app["call"])
+    if app["kind"][0] != "file":
+        for st in app["steps"]:
+            st["acts"] = tr(st["acts"])
+    return case
+
+
+def random_swallow_cases(rng, tier):
+    n = 3000 if tier == "quick" else 60000
+    return [(("random swallow script",), random_swallow_script(rng)) for _ in range(n)]
+
+
 def caseless(c):
     return c.lower() == c and c.upper() == c and c.title() == c
 
@@ -846,7 +1073,7 @@ def actions_of(case):
 
 def in_oracle_domain(case):
     for a in actions_of(case):
-        if a[0] == "S":
+        if a[0] in ("S", "T"):
             for k, v in a[2]:
                 if not is_nonstr(k) and not name_in_oracle_domain(k):
                     return False
